@@ -69,6 +69,10 @@ def libraryLine (f : List UInt8) : String :=
       | .error _ => "err"
     s!"ok {c.length} {fnvNats c} {back}"
 
+/-- `libraryfull` request (C04, model as writer): the container the model of the library writes -/
+def libraryFullLine (f : List UInt8) : String :=
+  outcome (libExpand crc32 (toNats f)) fun c => s!"ok {hex (c.map UInt8.ofNat)}"
+
 def parseSched (t : String) : Option (List IoEv) :=
   if t == "-" then some [] else
   (t.splitOn ",").mapM fun x =>
